@@ -12,6 +12,10 @@ def _core(out, tier, seed, prop, quick_mc, thorough_mc, quick_rand, thorough_ran
         jobs["doc-" + cat] = core.doc_jobs(cat, nr, max(3, depth // 2), seed + 1)
         # random graphs with names and values outside the catalogues
         jobs["fuzz-" + cat] = core.fuzz_jobs(max(40, nr // 2), seed + 11, cat)
+        # chained edits of positional fields of connected lines, then removals (SetField)
+        jobs["edit-" + cat] = core.edit_jobs(cat, nr, max(5, depth // 2 + 2), seed + 21)
+        jobs["edit-%s-v3" % cat] = core.edit_jobs(cat, max(20, nr // 5), 6, seed + 22, vlevel=3, kind="editv3")
+        jobs["edit-%s-v0" % cat] = core.edit_jobs(cat, max(20, nr // 5), 6, seed + 23, vlevel=0, kind="editv0")
         # the other validation levels (C18: the level never changes the result on valid input)
         for vl in (0, 2, 3):
             jobs["doc-%s-v%d" % (cat, vl)] = core.doc_jobs(cat, max(20, nr // 5), max(3, depth // 2), seed + 2 + vl,
